@@ -294,6 +294,29 @@ var hangs int
 
 const maxHangs = 5
 
+// gateConsole is the fake console with a yield point in Reset(): Suspend calls console.Reset() as its very
+// last statement, i.e. when the restore sequence is complete and (inside Close) the console has not been
+// closed yet.  A forced schedule holds the goroutine there.
+type gateConsole struct {
+	*fakeconsole.Console
+	mu      sync.Mutex
+	armed   bool
+	reached chan struct{}
+	release chan struct{}
+}
+
+func (g *gateConsole) Reset() error {
+	g.mu.Lock()
+	armed := g.armed
+	g.armed = false
+	g.mu.Unlock()
+	if armed {
+		close(g.reached)
+		<-g.release
+	}
+	return g.Console.Reset()
+}
+
 func session(r *hx.Run, rng *gen.Rng, id string, sub uint32, disableMouse bool, shape int, cursorStyle int) error {
 	var mask uint32
 	for i, bit := range bits {
@@ -323,8 +346,10 @@ func session(r *hx.Run, rng *gen.Rng, id string, sub uint32, disableMouse bool, 
 	// cleanly is reported as `incomplete` (never judged).
 	var vx *vaxis.Vaxis
 	var err error
+	var gc *gateConsole
 	for try := 0; ; try++ {
-		vx, err = vaxis.New(vaxis.Options{WithConsole: fc, NoSignals: true, DisableMouse: disableMouse, CSIuBitMask: vaxis.CSIuBitMask(mask5)})
+		gc = &gateConsole{Console: fc, reached: make(chan struct{}), release: make(chan struct{})}
+		vx, err = vaxis.New(vaxis.Options{WithConsole: gc, NoSignals: true, DisableMouse: disableMouse, CSIuBitMask: vaxis.CSIuBitMask(mask5)})
 		if err != nil {
 			return err
 		}
@@ -517,6 +542,96 @@ func session(r *hx.Run, rng *gen.Rng, id string, sub uint32, disableMouse bool, 
 			return nil
 		}
 		r.Emit("closesuspended", hx.Hex(string(fc.Take())))
+	case 5:
+		// round 4 — kill signal while suspended: nobody is at a select, the signal stays queued; Resume starts a
+		// new input goroutine (openTty, before Resume has re-entered the alternate screen), which takes the
+		// kill arm at once: its Close overlaps the rest of Resume and is serialised behind it by suspendMu.
+		// Expected on the wire: exactly what Resume writes, then exactly what Close writes; restored.
+		frames(1 + rng.Intn(2))
+		pending()
+		if !within(6*time.Second, func() { vx.Suspend() }) {
+			r.Emit(fmt.Sprintf("suspend %d %d %d %d %d", bi(cnv), bi(clv), crow, ccol, cstyle), "hang")
+			return nil
+		}
+		r.Emit(fmt.Sprintf("suspend %d %d %d %d %d", bi(cnv), bi(clv), crow, ccol, cstyle), hx.Hex(string(fc.Take())))
+		cnv = false
+		vx.VerifSignalKill()
+		r.Count("signal-while-suspended")
+		var wmu sync.Mutex
+		var writes []string
+		fc.Mirror = func(p []byte) { wmu.Lock(); writes = append(writes, string(p)); wmu.Unlock() }
+		if err := vx.Resume(); err != nil {
+			return err
+		}
+		deadline := time.Now().Add(6 * time.Second)
+		for fc.CloseCalls == 0 && time.Now().Before(deadline) {
+			time.Sleep(200 * time.Microsecond)
+		}
+		if fc.CloseCalls == 0 {
+			hangs++
+			r.Emit("resume", hx.Hex(string(fc.Take())))
+			r.Emit(fmt.Sprintf("closeby signal %d %d %d %d %d", bi(cnv), bi(clv), crow, ccol, cstyle), "hang")
+			return nil
+		}
+		fc.Take()
+		wmu.Lock()
+		cut := len(writes)
+		for i, w := range writes {
+			if w == "\x1b[c" { // the DA1 query Suspend writes directly: the first write of the Close
+				cut = i
+				break
+			}
+		}
+		r.Emit("resume", hx.Hex(strings.Join(writes[:cut], "")))
+		r.Emit(fmt.Sprintf("closeby signal %d %d %d %d %d", bi(cnv), bi(clv), crow, ccol, cstyle), hx.Hex(strings.Join(writes[cut:], "")))
+		wmu.Unlock()
+	case 6:
+		// round 4 — kill signal right after start-up, before the application has drawn anything
+		vx.VerifSignalKill()
+		r.Count("signal-before-first-frame")
+		deadline := time.Now().Add(6 * time.Second)
+		for fc.CloseCalls == 0 && time.Now().Before(deadline) {
+			time.Sleep(200 * time.Microsecond)
+		}
+		if fc.CloseCalls == 0 {
+			hangs++
+			r.Emit(fmt.Sprintf("closeby signal %d %d %d %d %d", bi(cnv), bi(clv), crow, ccol, cstyle), "hang")
+			return nil
+		}
+		r.Emit(fmt.Sprintf("closeby signal %d %d %d %d %d", bi(cnv), bi(clv), crow, ccol, cstyle), hx.Hex(string(fc.Take())))
+	case 7:
+		// round 4 — kill signal MID-FRAME (forced schedule): the input goroutine's Close is held at the end of
+		// Suspend (console.Reset(): the restore sequence is complete, the console not yet closed) while the main
+		// goroutine — which cannot know — asks for the cursor and renders one more frame; then Close goes on.
+		// The mode terminal judges everything that reached the console up to console.Close().
+		frames(1)
+		ccol, crow, cstyle = 1, 1, (ucs+3)%7 // a style that is not the user's
+		vx.ShowCursor(ccol, crow, vaxis.CursorStyle(cstyle))
+		cnv = true
+		vx.Render()
+		clv = true
+		r.Emit("bytes", hx.Hex(string(fc.Take())))
+		gc.mu.Lock()
+		gc.armed = true
+		gc.mu.Unlock()
+		vx.VerifSignalKill()
+		select {
+		case <-gc.reached:
+		case <-time.After(6 * time.Second):
+			hangs++
+			r.Emit("closeby signalframe", "hang")
+			return nil
+		}
+		vx.ShowCursor(ccol+1, crow, vaxis.CursorStyle(cstyle))
+		vx.Window().SetCell(2, 2, vaxis.Cell{Character: vaxis.Character{Grapheme: "y"}})
+		vx.Render()
+		close(gc.release)
+		deadline := time.Now().Add(6 * time.Second)
+		for fc.CloseCalls == 0 && time.Now().Before(deadline) {
+			time.Sleep(200 * time.Microsecond)
+		}
+		r.Count("signal-mid-frame-forced")
+		r.Emit("closeby signalframe", hx.Hex(string(fc.Take())))
 	case 4:
 		// handled by panicSession (child process)
 	case 2:
@@ -625,9 +740,12 @@ func run(r *hx.Run) error {
 			if !r.Thorough && (sub+dm)%4 != int(r.Seed%4) && sub != 0 && sub != subs-1 {
 				continue // quick tier: a quarter of the 512 configurations (rotating with the seed), plus the extremes
 			}
-			for shape := 0; shape < 4; shape++ {
+			for _, shape := range []int{0, 1, 2, 3, 5, 6, 7} {
 				if shape == 3 && n%16 != 3 {
 					continue // Close while suspended: a few configurations are enough (it costs a watchdog timeout when it hangs)
+				}
+				if shape >= 5 && (n/4)%8 != shape-5 {
+					continue // round 4 exit points (signal while suspended / before the first frame / mid-frame): every eighth configuration each
 				}
 				if err := session(r, rng, fmt.Sprintf("s-%d-%d-%d", sub, dm, shape), uint32(sub), dm == 1, shape, []int{-1, 0, 3, 6}[n%4]); err != nil {
 					return err
